@@ -163,11 +163,11 @@ def stream_unpack(rnd, env, st, n, op='UNPACK'):
     return lines
 
 
-def envs_for(rnd, tier, n_quick, n_thorough, big_every=6):
+def envs_for(rnd, tier, n_quick, n_thorough, big_every=6, oneof_defaults=False):
     n = n_quick if tier == 'quick' else n_thorough
-    out = []
+    out = list(casegen.corner_envs()) if oneof_defaults else []
     for i in range(n):
-        out.append(casegen.gen_env(rnd, big=(i % big_every == big_every - 1)))
+        out.append(casegen.gen_env(rnd, big=(i % big_every == big_every - 1), oneof_defaults=oneof_defaults and i % 3 == 1))
     return out
 
 
@@ -293,9 +293,14 @@ def check_C18(tier, seed):
         msg = oracle(l, o)
         if msg and len(run.violations) < 3:
             run.violation(run.replay('oracle-%d.txt' % i, '%s\ncase: %s\nimplementation: %s\n(schema: %s)\n' % (msg, l, o, env.text())), False)
+    # streaming claim: pack_to_buffer delivers, over however many append calls, exactly the bytes pack writes
+    envs = envs_for(rnd, tier, 5, 60, oneof_defaults=True)
+    run_corr_streams(run, ctx, rnd, envs, 30 if tier == 'quick' else 100, st,
+                     [lambda r, e, s, n: stream_pack(r, e, s, n, canon=False)], 'stream', pack_oracle_factory(None))
     finish_stats(run, st, 'BUF histories: capacity in {1,2,3,4,7,8,16,100}, lengths aimed at free-1/free/free+1/multi-doubling, '
                           'failure plans (none / k-th / k-th and later / subsets); distinct = distinct case lines; '
-                          'every case is run on the C buffer (ASan) and on the extracted model and the observations are diffed')
+                          'every case is run on the C buffer (ASan) and on the extracted model and the observations are diffed; '
+                          'PACK cases (corner schemas + random schemas, well-formed messages): pack vs concatenated pack_to_buffer chunks on C and model')
     run.assumptions = ['size_t arithmetic modelled without wrap-around (sizes < 2^63)', 'capacity >= 1 (capacity 0 does not terminate: outside the quantifier)']
     return conclude(run, gate, obl)
 
@@ -329,7 +334,7 @@ def check_C02(tier, seed):
     gate, obl = gate_and_ties(run, ctx, 'C02', seed, tier)
     rnd = random.Random(seed * 1000003 + 2)
     st = Stats()
-    envs = envs_for(rnd, tier, 12, 120)
+    envs = envs_for(rnd, tier, 12, 120, oneof_defaults=True)
     per_env = 40 if tier == 'quick' else 120
     run_corr_streams(run, ctx, rnd, envs, per_env, st,
                      [lambda r, e, s, n: stream_pack(r, e, s, n, canon=False)], 'pack', pack_oracle_factory(None))
@@ -528,7 +533,7 @@ def check_C19(tier, seed):
     gate, obl = gate_and_ties(run, ctx, 'C19', seed, tier)
     rnd = random.Random(seed * 1000003 + 19)
     st = Stats()
-    envs = envs_for(rnd, tier, 14, 120)
+    envs = envs_for(rnd, tier, 14, 120, oneof_defaults=True)
     per_env = 50 if tier == 'quick' else 150
     tally = {'planted': 0, 'spec_defect': 0, 'accepted': 0, 'rejected': 0, 'accepted_ok': 0}
     for env in envs:
